@@ -37,6 +37,9 @@ Record cls := {
   c_onfile : bool;                                  (* instances have an [on_file] attribute *)
   c_resolve : list (N * N);                         (* virtual name -> function id *)
   c_routes : list (N * option (list fld));          (* label -> fields written (None: the call raises) *)
+  c_guards : list (N * fld);                        (* label -> field g: the writer obtains the value through a getter
+                                                       that re-fetches g from the file under a key the setters can
+                                                       change; the call writes only if g is in memory *)
   c_pg : list fld;                                  (* fields written by add_or_update_property_group *)
   c_watch : list fld                                (* fields read by the getters of the assignable attributes *)
 }.
@@ -46,11 +49,20 @@ Record pair := {
   q_name : string;                                  (* "DefiningClass.attribute" of the resolved setter *)
   q_fid : N;
   q_own : list fld;                                 (* fields the attribute's getter reads *)
-  q_scope : bool
+  q_scope : bool;
+  q_kind : string                                   (* object | group | concatenator | data | type | other *)
 }.
 
+(* a listed name is "Class.attribute" (every class that inherits the setter), "Class.attribute@kind" or
+   "Class.attribute@ConcreteClass" *)
+Definition listed_as (listed : list string) (q : pair) : bool :=
+  existsb (String.eqb (q_name q)) listed
+  || existsb (String.eqb (String.append (q_name q) (String.append "@"%string (q_kind q)))) listed
+  || existsb (String.eqb (String.append (q_name q) (String.append "@"%string (q_cname q)))) listed.
+
 (* ------------------------------------------------------------------ flattened paths *)
-Inductive fe := FStore (f : fld) | FPersist (fs : list fld) | FPersistAll | FBad.
+Inductive fe := FStore (f : fld) | FPersist (fs : list fld) | FPersistAll | FBad
+              | FPersistIf (g : fld) (fs : list fld).   (* guarded persistence call whose guard is not known stored: writes nothing *)
 Inductive fx := X (e : fe) | L (bodies : list (list fe)).
 
 Definition memN (x : N) (l : list N) : bool := existsb (N.eqb x) l.
@@ -88,7 +100,11 @@ Fixpoint flat (fuel : nat) (T : list func) (c : cls) (nonnone : bool) (g : N) : 
       | SPersist l =>
           if c_onfile c then
             match assocN l (c_routes c) with
-            | Some (Some fields) => [[X (FPersist fields)]]
+            | Some (Some fields) =>
+                match assocN l (c_guards c) with
+                | Some g => [[X (FPersistIf g fields)]]
+                | None => [[X (FPersist fields)]]
+                end
             | Some None => []                              (* KEY_MAP[label] raises: the path ends abnormally *)
             | None => [[X FBad]]
             end
@@ -114,6 +130,25 @@ Fixpoint flat (fuel : nat) (T : list func) (c : cls) (nonnone : bool) (g : N) : 
   end.
 
 Definition FUEL : nat := 8.
+
+(* a guarded persistence call is effective when its guard field was stored earlier on the path (worst case otherwise:
+   the field is not in memory, the re-fetch under the changed key finds nothing, the routine deletes and returns) *)
+Fixpoint resolve_body (stored : list fld) (b : list fe) : list fe :=
+  match b with
+  | [] => []
+  | FStore f :: r => FStore f :: resolve_body (f :: stored) r
+  | FPersistIf g fs :: r => (if existsb (N.eqb g) stored then FPersist fs else FPersistIf g fs) :: resolve_body stored r
+  | e :: r => e :: resolve_body stored r
+  end.
+
+Fixpoint resolve (stored : list fld) (p : list fx) : list fx :=
+  match p with
+  | [] => []
+  | X (FStore f) :: r => X (FStore f) :: resolve (f :: stored) r
+  | X (FPersistIf g fs) :: r => X (if existsb (N.eqb g) stored then FPersist fs else FPersistIf g fs) :: resolve stored r
+  | X e :: r => X e :: resolve stored r
+  | L bs :: r => L (map (resolve_body stored) bs) :: resolve stored r
+  end.
 
 (* ------------------------------------------------------------------ the analysis *)
 Definition persists (f : fld) (e : fe) : bool :=
@@ -156,6 +191,7 @@ Definition touches (own : list fld) (e : fe) : bool :=
   | FPersist fs => existsb (fun f => memN f own) fs
   | FPersistAll => true
   | FBad => false
+  | FPersistIf _ fs => existsb (fun f => memN f own) fs
   end.
 
 Fixpoint stores_in (own : list fld) (p : list fx) : bool :=
@@ -166,7 +202,7 @@ Fixpoint stores_in (own : list fld) (p : list fx) : bool :=
   end.
 
 Definition pair_paths (T : list func) (C : list cls) (nonnone : bool) (q : pair) : alts :=
-  match find_cls C (q_cls q) with None => [[X FBad]] | Some c => flat FUEL T c nonnone (q_fid q) end.
+  match find_cls C (q_cls q) with None => [[X FBad]] | Some c => map (resolve []) (flat FUEL T c nonnone (q_fid q)) end.
 
 Definition pair_watch (C : list cls) (q : pair) : list fld :=
   match find_cls C (q_cls q) with None => [] | Some c => c_watch c end.
@@ -174,9 +210,23 @@ Definition pair_watch (C : list cls) (q : pair) : list fld :=
 (* safe: no normally-ending path loses a store;  live: some normally-ending path stores the attribute *)
 Definition pair_safe T C q : bool := forallb (fp_ok (pair_watch C q)) (pair_paths T C false q).
 Definition pair_live T C q : bool := existsb (stores_in (q_own q)) (pair_paths T C false q).
-(* persistable: some field the getter reads is written by some persistence call of the class at all *)
-Definition pair_persistable (C : list cls) (q : pair) : bool := existsb (fun f => memN f (pair_watch C q)) (q_own q).
-Definition pair_ok T C q : bool := pair_safe T C q && pair_live T C q && pair_persistable C q.
+(* the fields that represent the attribute: those its getter reads and its setter stores (if the setter stores none of
+   them - it mutates through an alias - every field the getter reads) *)
+Definition stores_of (p : list fx) : list fld :=
+  flat_map (fun x => match x with
+                     | X (FStore f) => [f]
+                     | X _ => []
+                     | L bs => flat_map (flat_map (fun e => match e with FStore f => [f] | _ => [] end)) bs
+                     end) p.
+
+Definition pair_backing T C (q : pair) : list fld :=
+  let st := flat_map stores_of (pair_paths T C false q) in
+  match filter (fun f => memN f st) (q_own q) with [] => q_own q | l => l end.
+
+(* persistable: some representing field is written by some persistence call of the class at all *)
+Definition pair_persistable T (C : list cls) (q : pair) : bool :=
+  existsb (fun f => memN f (pair_watch C q)) (pair_backing T C q).
+Definition pair_ok T C q : bool := pair_safe T C q && pair_live T C q && pair_persistable T C q.
 
 (* ------------------------------------------------------------------ semantics *)
 Record ent := { mem : fld -> N; sto : fld -> N; onf : bool }.
@@ -189,6 +239,7 @@ Definition step (e : ent) (x : fe) (v : N) : ent :=
   | FPersist fs => if onf e then {| mem := mem e; sto := fun g => if memN g fs then mem e g else sto e g; onf := true |} else e
   | FPersistAll => if onf e then {| mem := mem e; sto := mem e; onf := true |} else e
   | FBad => e
+  | FPersistIf _ _ => e
   end.
 
 (* the k-th event of the path stores the token [vals k]: unbounded in values *)
@@ -237,11 +288,11 @@ Definition path_loses (watch : list fld) (p : list fe) : bool :=
 
 (* fields whose synchronisation is inspected for a pair: the file-backed fields of the class; for an attribute none of
    whose fields is file-backed, its own fields (a store to them can never reach the file) *)
-Definition check_fields (C : list cls) (q : pair) : list fld :=
-  pair_watch C q ++ (if pair_persistable C q then [] else q_own q).
+Definition check_fields T (C : list cls) (q : pair) : list fld :=
+  pair_watch C q ++ (if pair_persistable T C q then [] else pair_backing T C q).
 
 Definition pair_lost T C q : bool :=
-  existsb (fun p => existsb (path_loses (check_fields C q)) (unroll01 p)) (pair_paths T C false q).
+  existsb (fun p => existsb (path_loses (check_fields T C q)) (unroll01 p)) (pair_paths T C false q).
 
 (* refused: no normally-ending path stores the attribute at all *)
 Definition pair_refused T C q : bool := negb (pair_live T C q).
@@ -264,9 +315,9 @@ Definition must_raise T C q : bool :=
 Definition seq_paths T C (qs : list pair) : list (list fe) :=
   map (fun ps => List.concat ps) (combos (map (fun q => flat_map unroll01 (pair_paths T C true q)) qs)).
 
-Definition attr_lost_on (C : list cls) (q : pair) (b : pair) (p : list fe) : bool :=
+Definition attr_lost_on T (C : list cls) (q : pair) (b : pair) (p : list fe) : bool :=
   existsb (fun f => memN f (lost_fields (pair_watch C q) p)) (q_own b)
-  || (negb (pair_persistable C b) && existsb (fun e => match e with FStore f => memN f (q_own b) | _ => false end) p).
+  || (negb (pair_persistable T C b) && existsb (fun e => match e with FStore f => memN f (pair_backing T C b) | _ => false end) p).
 
 Definition check_case (T : list func) (C : list cls) (P : list pair)
            (cn : string) (steps : list (string * bool)) (lost : list string) (snap : list string) : bool :=
@@ -275,8 +326,8 @@ Definition check_case (T : list func) (C : list cls) (P : list pair)
   | None => false                                     (* the harness assigned an attribute the table does not know *)
   | Some qs =>
       if existsb snd steps then
-        (* some assignment raised: only compare the refusals *)
-        forallb (fun sq => Bool.eqb (snd (fst sq)) (must_raise T C (snd sq))) (combine steps qs)
+        (* some assignment raised (validation is not modelled): a setter the model says cannot end normally must raise *)
+        forallb (fun sq => implb (must_raise T C (snd sq)) (snd (fst sq))) (combine steps qs)
       else
         match qs with
         | [] => true
@@ -289,9 +340,12 @@ Definition check_case (T : list func) (C : list cls) (P : list pair)
             | None => false
             | Some b =>
                 let obs := existsb (String.eqb bn) lost in
-                let may := existsb (attr_lost_on C q0 b) paths in
-                let must := forallb (attr_lost_on C q0 b) paths in
-                (implb obs may) && (implb must obs)
+                let may := existsb (attr_lost_on T C q0 b) paths in
+                let must := forallb (attr_lost_on T C q0 b) paths in
+                let assigned := existsb (fun s => String.eqb (fst s) bn) steps in
+                (* "must" only for the assigned attributes: two attributes kept in one field (a metadata dictionary)
+                   are not distinguished by the model *)
+                (implb obs may) && (implb (assigned && must) obs)
             end) snap
         end
   end.
